@@ -207,6 +207,9 @@ func (c *Client) HandlePresence(p stanza.Presence, r xmlstream.TokenReadEncoder)
 			verifhook.Yield("muc.presence.join.taken")
 			select {
 			case c.j <- p.From:
+				// The room has confirmed the occupant: the channel is joined until
+				// its unavailable presence arrives.
+				channel.joined = true
 				return nil
 			case <-c.done:
 				// If the call to Join has timed out, try again to see if we have a
@@ -221,6 +224,7 @@ func (c *Client) HandlePresence(p stanza.Presence, r xmlstream.TokenReadEncoder)
 		}
 	case stanza.UnavailablePresence:
 		delete(c.managed, channel.addr.String())
+		channel.joined = false
 		select {
 		case channel.depart <- struct{}{}:
 		default:
